@@ -686,6 +686,8 @@ def run(chk):
     fallthrough.run(chk, "C20", floor=20)
     from verif import moved
     moved.run(chk, "C20", r"^/repo/opm/", floor=120)
+    from verif import rawio
+    rawio.run(chk, "C20", floor=30)
     from verif import argorder
     argorder.run(chk, "C20", floor=160)
 
